@@ -50,6 +50,7 @@ var (
 )
 
 type node struct {
+	mode     fs.FileMode // permission bits (0 = default 0644)
 	name     string
 	dir      bool
 	data     []byte
@@ -246,6 +247,7 @@ type fileInfo struct {
 	size  int64
 	dir   bool
 	mtime int64
+	mode  fs.FileMode
 }
 
 func (fi fileInfo) Name() string { return fi.name }
@@ -253,6 +255,9 @@ func (fi fileInfo) Size() int64  { return fi.size }
 func (fi fileInfo) Mode() fs.FileMode {
 	if fi.dir {
 		return fs.ModeDir | 0755
+	}
+	if fi.mode != 0 {
+		return fi.mode
 	}
 	return 0644
 }
@@ -262,7 +267,7 @@ func (fi fileInfo) Sys() interface{}   { return nil }
 
 //go:norace
 func infoOf(n *node) fileInfo {
-	return fileInfo{n.name, int64(len(n.data)), n.dir, n.mtime}
+	return fileInfo{n.name, int64(len(n.data)), n.dir, n.mtime, n.mode}
 }
 
 //go:norace
@@ -443,7 +448,7 @@ func OpenFile(name string, flag int, perm FileMode) (*File, error) {
 		if parent == nil || !parent.dir {
 			return nil, perr("open", name, syscall.ENOENT)
 		}
-		n = &node{name: filepath.Base(p), mtime: d.now()}
+		n = &node{name: filepath.Base(p), mtime: d.now(), mode: perm & 0777}
 		parent.children[n.name] = n
 		d.journal("create", p, 0)
 	} else if flag&O_CREATE != 0 && flag&O_EXCL != 0 {
@@ -470,6 +475,126 @@ func Create(name string) (*File, error) {
 
 //go:norace
 func (f *File) Name() string { return f.name }
+
+// Chmod, Chown, deadlines: the rest of *os.File's method set.
+//
+//go:norace
+func (f *File) Chmod(mode FileMode) error {
+	simrt.YS()
+	if f.closed {
+		return perr("chmod", f.name, os.ErrClosed)
+	}
+	f.n.mode = mode & 0777
+	disk().journal("chmod", f.path, 0)
+	return nil
+}
+
+//go:norace
+func (f *File) Chown(uid, gid int) error { return nil }
+
+//go:norace
+func (f *File) Chdir() error { return nil }
+
+//go:norace
+func (f *File) SetDeadline(time.Time) error { return nil }
+
+//go:norace
+func (f *File) SetReadDeadline(time.Time) error { return nil }
+
+//go:norace
+func (f *File) SetWriteDeadline(time.Time) error { return nil }
+
+//go:norace
+func (f *File) Readdirnames(n int) ([]string, error) {
+	infos, err := f.Readdir(n)
+	var out []string
+	for _, i := range infos {
+		out = append(out, i.Name())
+	}
+	return out, err
+}
+
+//go:norace
+func (f *File) ReadDir(n int) ([]DirEntry, error) {
+	infos, err := f.Readdir(n)
+	var out []DirEntry
+	for _, i := range infos {
+		out = append(out, fs.FileInfoToDirEntry(i))
+	}
+	return out, err
+}
+
+// Chmod / Chown / Chtimes / Truncate by name.
+//
+//go:norace
+func Chmod(name string, mode FileMode) error {
+	simrt.YS()
+	n := disk().lookup(name)
+	if n == nil {
+		return perr("chmod", name, syscall.ENOENT)
+	}
+	n.mode = mode & 0777
+	disk().journal("chmod", clean(name), 0)
+	return nil
+}
+
+//go:norace
+func Chown(name string, uid, gid int) error { return nil }
+
+//go:norace
+func Chtimes(name string, atime, mtime time.Time) error {
+	simrt.YS()
+	n := disk().lookup(name)
+	if n == nil {
+		return perr("chtimes", name, syscall.ENOENT)
+	}
+	n.mtime = mtime.UnixNano()
+	disk().journal("chtimes", clean(name), 0)
+	return nil
+}
+
+//go:norace
+func Truncate(name string, size int64) error {
+	f, err := OpenFile(name, O_WRONLY, 0)
+	if err != nil {
+		return err
+	}
+	defer f.Close()
+	return f.Truncate(size)
+}
+
+//go:norace
+func SameFile(a, b FileInfo) bool {
+	return a.Name() == b.Name() && a.Size() == b.Size() && a.ModTime().Equal(b.ModTime())
+}
+
+//go:norace
+func Getuid() int { return 1000 }
+
+//go:norace
+func Getgid() int { return 1000 }
+
+//go:norace
+func Geteuid() int { return 1000 }
+
+//go:norace
+func UserHomeDir() (string, error) { return "/home/sim", nil }
+
+//go:norace
+func Environ() []string {
+	var out []string
+	for k, v := range disk().Env {
+		out = append(out, k+"="+v)
+	}
+	sort.Strings(out)
+	return out
+}
+
+//go:norace
+func Unsetenv(key string) error { delete(disk().Env, key); return nil }
+
+//go:norace
+func ExpandEnv(s string) string { return os.Expand(s, Getenv) }
 
 //go:norace
 func (f *File) Fd() uintptr { return 99 }
